@@ -204,7 +204,7 @@ def query2(ctx) -> List[Ob]:
         else:
             out.append(unresolved("QUERY-2", m.qualname, key, where, "inner loop over the forward targets of an inside block not found"))
         key = "inside blocks without target are exiting"
-        ex = [n for n in lp.body if isinstance(n, ast.If) and "is_exiting" in A.unparse(n.test) and v in A.unparse(n.test) and method_calls(ast.Module(n.body, []), "add")]
+        ex = [n for n in lp.body if isinstance(n, ast.If) and ("is_exiting" in A.unparse(n.test) or A.unparse(n.test) in (f"not self.graph[{v}].jump_targets", f"not self[{v}].jump_targets")) and v in A.unparse(n.test) and method_calls(ast.Module(n.body, []), "add")]
         if ex or alt_exiting_ok:
             out.append(ok("QUERY-2", m.qualname, key, where, "a block without successors is exiting"))
         else:
